@@ -132,6 +132,7 @@ type c11Job struct {
 	sc   c11Scenario
 	f    c11Fault
 	hold bool
+	wrap string // "": the endpoint runs on the gated stream itself; "conn": on net.ConnStream over it
 }
 
 // c11Jobs: the fault at every position of the script, inside every Write (wpart) and after
@@ -141,16 +142,16 @@ func c11Jobs(sc c11Scenario) []c11Job {
 	var jobs []c11Job
 	add := func(f c11Fault) {
 		if f.kind != "half" {
-			jobs = append(jobs, c11Job{sc, f, false})
+			jobs = append(jobs, c11Job{sc: sc, f: f, hold: false})
 		}
-		jobs = append(jobs, c11Job{sc, f, true})
+		jobs = append(jobs, c11Job{sc: sc, f: f, hold: true})
 	}
 	for pos := 0; pos <= len(sc.script); pos++ {
 		for _, k := range []string{"rerr", "reof", "lclose", "half"} {
-			add(c11Fault{pos, 0, k})
+			add(c11Fault{pos: pos, kind: k})
 		}
 		if pos > 0 && sc.script[pos-1].kind == "start" {
-			add(c11Fault{pos, 0, "wpart"})
+			add(c11Fault{pos: pos, kind: "wpart"})
 		}
 	}
 	for pos, st := range sc.script {
@@ -160,11 +161,52 @@ func c11Jobs(sc c11Scenario) []c11Job {
 		nfr := len(c11Split(c11Frame(st.owner, st.idx, st.mtype, 0), st.frags))
 		for f := 1; f < nfr; f++ {
 			for _, k := range []string{"rerr", "reof", "lclose", "half"} {
-				add(c11Fault{pos, f, k})
+				add(c11Fault{pos: pos, frag: f, kind: k})
 			}
 		}
 		for f := 1; f <= nfr; f++ {
-			add(c11Fault{pos, f, "dataeof"})
+			add(c11Fault{pos: pos, frag: f, kind: "dataeof"})
+		}
+	}
+	return jobs
+}
+
+// c11KindJobs: the loss in every KIND of error (c11kinds.go), persistent and once-then-EOF, seen
+// first by a Read (rkind: at every script position and after every fragment of every fragmented
+// frame; dkind: returned together with the last byte of every fragment) or first by the Write
+// of a call (wkind0: nothing written, wkindp: half of the frame written; the reads fail in the
+// same kind once that call has returned).  All of them run on net.ConnStream over the gated
+// connection.  Whether process is held inside stream.Close() alternates with the slot and the
+// kind, so every kind is seen with and without the hold in every scenario.
+func c11KindJobs(sc c11Scenario, salt int) []c11Job {
+	var jobs []c11Job
+	slot := salt
+	add := func(pos, frag int, kind string) {
+		slot++
+		for ki, k := range c11ErrKinds {
+			for oi, once := range []bool{false, true} {
+				jobs = append(jobs, c11Job{sc, c11Fault{pos: pos, frag: frag, kind: kind, ek: k.name, once: once},
+					(slot+ki+oi)%2 == 0, "conn"})
+			}
+		}
+	}
+	for pos := 0; pos <= len(sc.script); pos++ {
+		add(pos, 0, "rkind")
+		if pos > 0 && sc.script[pos-1].kind == "start" {
+			add(pos, 0, "wkind0")
+			add(pos, 0, "wkindp")
+		}
+	}
+	for pos, st := range sc.script {
+		if st.kind != "frame" {
+			continue
+		}
+		nfr := len(c11Split(c11Frame(st.owner, st.idx, st.mtype, 0), st.frags))
+		for f := 1; f < nfr; f++ {
+			add(pos, f, "rkind")
+		}
+		for f := 1; f <= nfr; f++ {
+			add(pos, f, "dkind")
 		}
 	}
 	return jobs
